@@ -234,6 +234,12 @@ func runTeardownCase1(c *Case) string {
 		sub = subAny(ro.TakeUntil[int](p2.Observable())(p1.Observable()), rec)
 	case "combineLatest":
 		sub = subAny(ro.CombineLatest2(p1.Observable(), p2.Observable()), rec)
+	case "race":
+		sub = subAny(ro.Race(p1.Observable(), p2.Observable()), rec)
+	case "race3":
+		sub = subAny(ro.Race(p1.Observable(), p2.Observable(), p3.Observable()), rec)
+	case "raceWith":
+		sub = subAny(ro.RaceWith(p2.Observable(), p3.Observable())(p1.Observable()), rec)
 	default:
 		ok = false
 	}
@@ -242,7 +248,7 @@ func runTeardownCase1(c *Case) string {
 	}
 	// multi-source set-ups: some traffic first, so that the operators hold state when they are torn
 	// down (below a single operator a value could end the stream early: Take, First, …)
-	if c.get("op", "") == "" {
+	if c.get("op", "") == "" && !strings.HasPrefix(setup, "race") { // Race: torn down while nobody has won yet
 		p1.send(Tok{'N', 2, 1})
 		if setup != "takeUntil" {
 			p2.send(Tok{'N', 3, 2})
@@ -384,7 +390,7 @@ func genTeardown(tier string, seed int64, only string) []*Case {
 		for _, st := range []struct {
 			setup string
 			n     int
-		}{{"merge", 2}, {"merge3", 3}, {"takeUntil", 2}, {"combineLatest", 2}} {
+		}{{"merge", 2}, {"merge3", 3}, {"takeUntil", 2}, {"combineLatest", 2}, {"race", 2}, {"race3", 3}, {"raceWith", 3}} {
 			for _, pan := range pans(st.n) {
 				add("setup", st.setup, "end", "unsub", "pan", pan)
 			}
